@@ -69,7 +69,7 @@
 (define-unfold pow2 ((n Int)) Int (ite (<= n 0) 1 (* 2 (pow2 (- n 1)))))
 (assert (forall ((n Int)) (! (>= (pow2 n) 1) :pattern ((pow2 n)))))
 ;@module bits.ax
-;@attach bits
+;@attach-proved bits
 ; pow2 is strictly increasing on the naturals (induction: lemmas pow2.mono.*)
 (assert (forall ((a Int) (b Int)) (! (=> (and (<= 0 a) (< a b)) (< (pow2 a) (pow2 b))) :pattern ((pow2 a) (pow2 b)))))
 
@@ -119,7 +119,7 @@
 (define-unfold sum.pv4 ((a (Array Int cashu.ProofV4)) (n Int)) Int (ite (<= n 0) 0 (+ (sum.pv4 a (- n 1)) (nn (cashu.ProofV4.Amount (select a (- n 1)))))))
 (define-unfold sum.v4 ((a (Array Int cashu.TokenV4Proof)) (h (Array Ref (Array Int cashu.ProofV4))) (n Int)) Int (ite (<= n 0) 0 (+ (sum.v4 a h (- n 1)) (sum.pv4 (select h (cashu.TokenV4Proof.Proofs (select a (- n 1)))) (rlen (cashu.TokenV4Proof.Proofs (select a (- n 1))))))))
 ;@module sums.ax
-;@attach sums
+;@attach-proved sums
 ; non-negativity and frame under an update at or beyond the prefix: both are
 ; inductive facts, proved as base + step lemmas in contracts/lemmas.gvc (the
 ; lemma queries are generated WITHOUT this module)
@@ -190,8 +190,14 @@
 (define-fun h2c ((m Bytes)) Pt (h2c.search (sha256 (bcat (bytesOf str.DS) m)) 0))
 (define-fun Yof ((s Str)) Str (hexenc (pt.ser (h2c (bytesOf s)))))
 
+;@module dleq group hash strings hex
+; HashE: sha256 of the concatenated hex of the uncompressed serialisations
+(define-unfold hashe.cat ((a (Array Int Ref)) (h (Array Ref github.com/decred/dcrd/dcrec/secp256k1/v4.PublicKey)) (n Int)) Str (ite (<= n 0) str.empty (scat (hashe.cat a h (- n 1)) (hexenc (pt.seru (pk.pt (select h (select a (- n 1)))))))))
+(define-fun hashe4 ((p1 Pt) (p2 Pt) (p3 Pt) (p4 Pt)) Bytes (sha256 (bytesOf (scat (scat (scat (scat str.empty (hexenc (pt.seru p1))) (hexenc (pt.seru p2))) (hexenc (pt.seru p3))) (hexenc (pt.seru p4))))))
+(declare-fun dleq.verdict (cashu.Proof github.com/decred/dcrd/dcrec/secp256k1/v4.PublicKey) Bool)
+
 ;@module group.ax
-;@attach group
+;@attach-lemmas group
 ; abelian group and module laws
 (assert (forall ((a Pt) (b Pt)) (! (= (padd a b) (padd b a)) :pattern ((padd a b)))))
 (assert (forall ((a Pt) (b Pt) (c Pt)) (! (= (padd (padd a b) c) (padd a (padd b c))) :pattern ((padd (padd a b) c)))))
@@ -204,6 +210,10 @@
 (assert (forall ((k Sc) (a Pt)) (! (= (smul (sneg k) a) (pneg (smul k a))) :pattern ((smul (sneg k) a)))))
 (assert (forall ((k Sc) (l Sc)) (! (= (smulS k l) (smulS l k)) :pattern ((smulS k l)))))
 (assert (forall ((k Sc) (l Sc)) (! (= (sadd k l) (sadd l k)) :pattern ((sadd k l)))))
+(assert (forall ((a Pt)) (! (= (pneg (pneg a)) a) :pattern ((pneg (pneg a))))))
+(assert (forall ((a Pt) (b Pt)) (! (= (pneg (padd a b)) (padd (pneg a) (pneg b))) :pattern ((pneg (padd a b))))))
+; prime order: a non-identity point determines the scalar
+(assert (forall ((k Sc) (l Sc) (p Pt)) (! (=> (and (= (smul k p) (smul l p)) (not (= p pt.O))) (= k l)) :pattern ((smul k p) (smul l p)))))
 
 ;@module errors
 (declare-fun err.is (Iface Iface) Bool)
@@ -240,7 +250,7 @@
 (define-fun fee.tx ((a (Array Int cashu.Proof)) (h (Array Str Bool)) (v (Array Str crypto.MintKeyset)) (n Int)) Int (div (mod (+ (mod (fee.sum a h v n) 18446744073709551616) 999) 18446744073709551616) 1000))
 
 ;@module fees.ax
-;@attach fees
+;@attach-proved fees
 (assert (forall ((a (Array Int cashu.Proof)) (h (Array Str Bool)) (v (Array Str crypto.MintKeyset)) (n Int)) (! (>= (fee.sum a h v n) 0) :pattern ((fee.sum a h v n)))))
 
 ;@module sumlemmas
@@ -276,7 +286,7 @@
 (declare-fun mapsum.str ((Array Str Bool) (Array Str Int)) Int)
 (define-unfold esum.str ((k (Array Int Str)) (v (Array Str Int)) (n Int)) Int (ite (<= n 0) 0 (+ (esum.str k v (- n 1)) (nn (select v (select k (- n 1)))))))
 ;@module mapsum.ax
-;@attach mapsum
+;@attach-proved mapsum
 (assert (forall ((k (Array Int Str)) (v (Array Str Int)) (n Int)) (! (>= (esum.str k v n) 0) :pattern ((esum.str k v n)))))
 
 ;@module hd group
